@@ -5,8 +5,8 @@
 (* the TokenFactory of <<tok[1], tok[2]>> is asked for MaxReq tokens.  Configurations:             *)
 (*   mc/token_q.cfg     IB=3 VB=3 SB=3, storage 4 bits     exhaustive, < 30 s                      *)
 (*   mc/token_q2.cfg    IB=4 VB=2 SB=3 (unequal widths: a version/sub shift mix-up is visible)     *)
-(*   mc/token_limb.cfg  IB=6 VB=3 SB=3 (limb layout, LB=3): limb form = numeric form               *)
-(*   mc/token_t.cfg     IB=5 VB=4 SB=4  (thorough tier)                                            *)
+(*   mc/token_limb.cfg  IB=4 VB=2 SB=2 (limb layout, LB=2): limb form = numeric form; token_t_limb: LB=3*)
+(*   mc/token_t.cfg     IB=4 VB=4 SB=4  (thorough tier)                                            *)
 (*   mc/token_var_*.cfg one wrong behaviour each; TLC must report an Inv_C20_* invariant violated  *)
 EXTENDS Token
 
